@@ -36,7 +36,11 @@ def register(PROPS, HARNESS_PKGS):
     # a deployment's own profile that does not declare OpenAI compatibility (see verifCustomProfiles)
     custom = dict(part)
     custom.update({"name": "custom", "mc": [], "env": {"VERIF_CUSTOM_PROFILES": "1"},
-                   "quick": {"gen": [_pg('{"e1", "e2"}', '{"openai", "openai-compatible", "verifnoc", "ollama"}', '{"verifnoc", "ollama", "openai-compatible"}')]},
+                   "quick": {"gen": [_pg('{"e1", "e2"}', '{"openai", "openai-compatible", "verifnoc", "ollama"}', '{"verifnoc", "ollama", "openai-compatible"}'),
+                                     _pg('{"e1", "e2"}', '{"openai-verif", "openai", "ollama"}', '{"openai-verif", "ollama"}'),
+                                     # an endpoint that names no type is not "auto": it belongs to no specific provider (under the
+                                     # openai prefixes the property says nothing about it, so it is not generated there)
+                                     _pg('{"e1", "e2"}', '{"openai-verif", "ollama"}', '{"openai-verif", "ollama", "untyped"}')]},
                    "thorough": {"gen": [_pg('{"e1", "e2", "e3"}', '{"openai", "openai-compatible", "verifnoc", "ollama", "vllm"}', '{"verifnoc", "verifoff", "ollama", "openai-compatible", "auto"}')], "sample": 2000}})
     PROPS["C11"] = {
         "rule": "TLC enumerates provider prefix (every prefix the shipped profiles declare) x endpoint-type mix x healthy "
